@@ -22,6 +22,7 @@ global size_of usize == 8;
 //@include lib/engine_fns.rs
 //@include lib/single_pre.rs
 //@include lib/path_algebra.rs
+//@include lib/verr.rs
 //@include lib/single_world.rs
 //@include lib/single_fns.rs
 }
